@@ -138,6 +138,7 @@ class C08(Prop):
         "digitize_spec", "digitize_status", "digitize_sentinels", "textize_spec",
         "digitize_textize_digitize", "textize_canonical_spelling", "revcomp_spec", "revcomp_involutive",
         "avg_score_is_mean", "avg_score_nonresidue", "expect_score_is_weighted_mean", "count_splits_equally", "degen_set_examples",
+        "custom_create_wf", "custom_alphabets_wf", "custom_digitize_textize_digitize",
     )]
     claimed = True
     technique = ("Lean 4 proof: table theorems closed by `decide` over the whole regenerated tables (vs a hand-written IUPAC statement), "
@@ -149,7 +150,7 @@ class C08(Prop):
                   "complements the set. Theorems for EVERY alphabet and EVERY byte string (induction, no length bound): Digitize = sentinel + code of "
                   "each non-ignored character + sentinel with eslEINVAL iff some character is outside the alphabet ('any' substituted, bytes >= 0x80 "
                   "included); Textize spells codes; Digitize.Textize.Digitize = Digitize for well-formed alphabets; textize(digitize s) = canonical "
-                  "spelling for the 5 built-in alphabets; the in-place swap loop of esl_abc_revcomp = reverse+complement and is an involution; over Q the AvgScore/ExpectScore loops compute the (weighted) mean over the degeneracy set and Count splits the weight equally. "
+                  "spelling for the 5 built-in alphabets; the in-place swap loop of esl_abc_revcomp = reverse+complement and is an involution; over Q the AvgScore/ExpectScore loops compute the (weighted) mean over the degeneracy set and Count splits the weight equally; every custom alphabet built by CreateCustom + SetEquiv/SetCaseInsensitive/SetDegeneracy/SetIgnored is well-formed (so all conversion theorems apply to it). "
                   "The hand model is tied to the tree by an exact differential run (all single bytes, random strings up to 10^4, custom alphabets).")
     level_note = ("Trusted: Lean kernel + propext/Classical.choice/Quot.sound; table dumper; fidelity of the hand model is checked (not proved) by the "
                   "differential run; score/count averaging is compared bit-exactly (binary64/binary32) and monitored against the exact mean; "
